@@ -5,6 +5,8 @@ import (
 	"flag"
 	"fmt"
 	"os"
+
+	mocker "github.com/tencent/goom"
 )
 
 type cmdFn func(args []string) int
@@ -22,6 +24,13 @@ func main() {
 	if !ok {
 		fmt.Fprintln(os.Stderr, "unknown command", os.Args[1])
 		os.Exit(2)
+	}
+	// logging configuration of the whole run (C19): off unless HX_LOG says otherwise; GOOM_DEBUG is goom's own switch
+	switch os.Getenv("HX_LOG") {
+	case "debug":
+		mocker.OpenDebug()
+	case "trace":
+		mocker.OpenTrace()
 	}
 	os.Exit(f(os.Args[2:]))
 }
